@@ -64,7 +64,9 @@ class AdaptersConfiguratorMixin:
 
         intr = self.introspectable(
             'subscribers',
-            id(subscriber),
+            # one entry per statement: the same subscriber may be registered
+            # for several interfaces
+            (id(subscriber), tuple(iface)),
             self.object_description(subscriber),
             'subscriber',
         )
